@@ -567,8 +567,8 @@ func (u *Unit) lockGuardCheck(env *Env, x *ast.SelectorExpr, write bool) {
 	// writes to guarded fields must be preceded by such a read (check-then-act inside one critical section)
 	var decideKey string
 	if d := strings.SplitN(u.Block.Opts["decide-under"], ":", 2); len(d) == 2 {
-		decideKey = "decided:" + u.exprText(x.X) + "." + d[0] + "@" + u.exprText(x.X) + "." + d[1]
-		if x.Sel.Name == d[0] && env.held[u.exprText(x.X)+"."+d[1]] != "" {
+		decideKey = "decided:" + u.baseKey(x.X, env) + "." + d[0] + "@" + u.baseKey(x.X, env) + "." + d[1]
+		if x.Sel.Name == d[0] && env.held[u.baseKey(x.X, env)+"."+d[1]] != "" {
 			env.held[decideKey] = "D"
 		}
 	}
@@ -577,14 +577,14 @@ func (u *Unit) lockGuardCheck(env *Env, x *ast.SelectorExpr, write bool) {
 		if len(parts) != 2 || x.Sel.Name != parts[0] {
 			continue
 		}
-		key := u.exprText(x.X) + "." + parts[1]
+		key := u.baseKey(x.X, env) + "." + parts[1]
 		mode := env.held[key]
 		ok := mode == "W" || (!write && mode == "R")
 		what := "read"
 		if write {
 			what = "write"
 		}
-		u.assert(env, fmt.Sprintf("perm/guarded-%s/%s", what, u.exprText(x)), "perm", x.Pos(), what+" of "+u.exprText(x)+" requires "+key+" to be held", boolTerm(ok))
+		u.assert(env, fmt.Sprintf("perm/guarded-%s/%s", what, u.exprText(x)), "perm", x.Pos(), what+" of "+u.exprText(x)+" requires "+u.exprText(x.X)+"."+parts[1]+" to be held", boolTerm(ok))
 		if write && decideKey != "" {
 			u.assert(env, fmt.Sprintf("perm/decided-under-lock/%s", u.exprText(x)), "perm", x.Pos(), "write of "+u.exprText(x)+" must follow a read of the "+u.Block.Opts["decide-under"]+" flag in the same critical section", boolTerm(env.held[decideKey] != ""))
 		}
